@@ -15,18 +15,20 @@ from vlib import (Inconclusive, NCPU, build_harness, log, run, run_tlc, stage_sp
 
 M_INV = ["M_Init", "M_Launch", "M_Process", "M_Chain", "M_Loader"]
 P_OPS = {
+    "C12": ["C11_Terminates", "C11_NoDupResult", "C11_WithinReach", "C11_ExactReach", "C11_FaultsAreSkipped"],
     "C09": ["C09_ReloadEqual"],
     "C10": ["C10_Count", "C10_Content"],
     "C11": ["C11_Terminates", "C11_NoDupResult", "C11_NoDupRequest", "C11_NoExcludedRequest", "C11_ConcurrencyBound",
             "C11_WithinReach", "C11_ExactReach", "C11_FaultsAreSkipped", "C11_WithinTimeout"],
 }
 MODEL_INV = {
+    "C12": ["C11_NoDupResult", "C11_OnlyRetrievable", "C11_WithinReach", "C11_ExactReach"],
     "C09": ["C09_UnboundedExact", "C11_NoDupResult"],
     "C10": ["C10_Exact"],
     "C11": ["C11_NoDupResult", "C11_NoDupRequest", "C11_NoExcludedRequest", "C11_OnlyRetrievable",
             "C11_WithinReach", "C11_ExactReach", "C11_Quiescent"],
 }
-MODEL_PROP = {"C09": [], "C10": [], "C11": ["C11_Terminates"]}
+MODEL_PROP = {"C09": [], "C10": [], "C11": ["C11_Terminates"], "C12": []}
 
 
 def shape_scripts(specdir, tier, seed, fn="LWW"):
@@ -75,7 +77,7 @@ def make_instances(prop, tier, seed, shapes, fn):
         N = len(shape["D"])
         flt = ["ok"] * N
         for i, kd in (faults or {}).items():
-            flt[int(i) - 1] = kd
+            flt[int(i) - 1] = "garbage" if kd.startswith("malformed") else kd
         insts.append({
             "name": "i%d" % (len(insts) + 1), "shape": shape["shape"], "replica": rep, "Kind": kind, "N": n,
             "Length": eff_length(kind, n, k), "Conc": 32 if kind == "json" else conc, "K": k, "Start": st,
@@ -108,6 +110,14 @@ def make_instances(prop, tier, seed, shapes, fn):
                         if kind == "json" and conc != 2:
                             continue
                         add(shape, rep, kind, n, conc)
+        elif prop == "C12":
+            # blocks that are well-formed CBOR but not decodable entries, planted at every position
+            ids = sorted(info["ents"])
+            for k, i in enumerate(ids if not q else ids[:4]):
+                kd = "malformed%d" % ((k + seed) % 6)
+                for kind in ("mh", "entryhash", "fetch", "json"):
+                    add(shape, rep, kind, -1, 2, faults={i: kd}, tag="malformed")
+                add(shape, rep, "mh", 3, 2, faults={i: kd}, tag="malformed+limit")
         elif prop == "C11":
             ids = sorted(info["ents"])
             kinds = ["missing", "error", "garbage"]
